@@ -11,11 +11,8 @@ let split_case line =
 
 let dispatch inp obs =
   match inp with
-  | k :: _ when String.length k >= 3 && String.sub k 0 3 = "C17" -> C17.run inp obs
-  | k :: _ when String.length k >= 3 && String.sub k 0 3 = "C15" -> C15.run inp obs
-  | "C05" :: _ -> C05.run inp obs
-  | ("C14I" | "C14O") :: _ -> C14.run inp obs
-  | _ -> (Some "unknown case kind", None)
+  | k :: _ -> (match Evalreg.find k with Some f -> f inp obs | None -> (Some ("unknown case kind " ^ k), None))
+  | [] -> (Some "empty case", None)
 
 let () =
   try
